@@ -61,6 +61,36 @@ var c14Spins = []func() *gt.T{
 	},
 }
 
+// deep spins: an infinite loop (empty, or with a body) below 8..65 enclosing
+// blocks of alternating kinds - the signal has to unwind every level
+func c14DeepSpin(depth int, inner *gt.T) *gt.T {
+	t := inner
+	for d := depth; d > 0; d-- {
+		switch d % 3 {
+		case 0:
+			t = gt.If(gt.Bool(true), t)
+		case 1:
+			q := fmt.Sprintf("zq%d", d)
+			t = gt.For(gt.Assign("=", gt.Ident(q), gt.Int(0)), gt.Bin("<", gt.Ident(q), gt.Int(2)), gt.Assign("=", gt.Ident(q), gt.Bin("+", gt.Ident(q), gt.Int(1))), t)
+		default:
+			t = gt.ForIn(fmt.Sprintf("zr%d", d), gt.List(gt.Int(1), gt.Int(2)), t)
+		}
+	}
+	return t
+}
+
+func init() {
+	for _, d := range []int{7, 8, 9, 15, 16, 17, 33, 65} {
+		d := d
+		c14Spins = append(c14Spins, func() *gt.T { return c14DeepSpin(d, gt.For(nil, nil, nil)) })
+		if d%2 == 1 {
+			c14Spins = append(c14Spins, func() *gt.T {
+				return c14DeepSpin(d, gt.For(nil, nil, nil, gt.Call("p", gt.Str("deep")), gt.If(gt.Bool(false), gt.Break())))
+			})
+		}
+	}
+}
+
 type c14Case struct {
 	V2    bool
 	Stmts map[string][]*gt.T
@@ -153,7 +183,7 @@ func (c14) build(c *mon.Ctx, v2 bool) c14Case {
 	for _, s := range cs.Stmts {
 		maxStmtNodes(s, 0, &mn, &md)
 	}
-	cs.Grace = int64(2*mn + 4*md + 16)
+	cs.Grace = int64(2*mn + 8*md + 16)
 	return cs
 }
 
